@@ -538,6 +538,7 @@ _COMBINATORS = {
     'core::option::Option::<T>::and_then': ('option', 'and_then'),
     'core::result::Result::<T, E>::map_err': ('result', 'map_err'),
     'core::option::Option::<T>::ok_or': ('option', 'ok_or'),
+    'core::result::Result::<T, E>::or': ('result', 'or'),
 }
 _UNARY_COMBINATORS = {'core::result::Result::<T, E>::ok': 'ok'}
 
@@ -635,7 +636,7 @@ def expand_combinators(doc):
                 if (out_is_result and len(da) != 2) or (not out_is_result and len(da) != 1):
                     continue
                 app = None
-                if comb != 'ok_or':
+                if comb not in ('ok_or', 'or'):
                     app = _applied(b, by_key, fop)
                     if app is None:
                         continue
@@ -729,6 +730,11 @@ def expand_combinators(doc):
                         inline_at.append((fa, ck))
                     blocks.append({'cleanup': False, 'stmts': [asg(t['dest'], _agg(out_adt, 'Err', 1, ['0'], [mv(r2)], da))],
                                    'term': {'k': 'goto', 'target': target, 'line': line}, 'syn': comb})
+                elif comb == 'or':
+                    # x.or(y): the failure of x is discarded, y is the result
+                    blocks.append({'cleanup': False, 'stmts': [asg(t['dest'], {'k': 'use', 'op': fop})],
+                                   'term': {'k': 'goto', 'target': target, 'line': line}, 'syn': comb})
+                    blocks.append({'cleanup': False, 'stmts': [], 'term': {'k': 'goto', 'target': target, 'line': line}, 'syn': comb})
                 elif comb == 'ok_or':
                     blocks.append({'cleanup': False, 'stmts': [asg(t['dest'], _agg(out_adt, 'Err', 1, ['0'], [fop], da))],
                                    'term': {'k': 'goto', 'target': target, 'line': line}, 'syn': comb})
@@ -909,6 +915,16 @@ def eliminate_try(doc):
 
 # N3c jump threading: a block that has just built `x = Ok(..)/Err(..)/Some(..)/None` and jumps to a block that only
 #     branches on the discriminant of x goes to the known arm directly (no artificial merge of success and failure paths).
+def _mentions_local(x, l):
+    if isinstance(x, dict):
+        if 'l' in x and 'p' in x and x['l'] == l:
+            return True
+        return any(_mentions_local(v, l) for v in x.values())
+    if isinstance(x, list):
+        return any(_mentions_local(v, l) for v in x)
+    return False
+
+
 def thread_known_discriminants(doc):
     n = 0
     for b in doc['bodies']:
@@ -954,14 +970,22 @@ def thread_known_discriminants(doc):
                     if blk is P or blk.get('cleanup'):
                         break
                     st_ = blk['stmts']
-                    if blk['term'].get('k') == 'goto' and all(x.get('k') == 'assign' and x['rv'].get('k') == 'use' for x in st_) and len(st_) <= 3:
+                    if blk['term'].get('k') == 'goto' and all(x.get('k') == 'assign' for x in st_) and len(st_) <= 6:
+                        # a block that is only passed through: its statements are duplicated into this path (any plain
+                        # assignments — drop-flag updates, discriminant reads of other values — as long as the value that is
+                        # followed is only moved on, never read or overwritten otherwise)
                         moved = False
+                        okblk = True
                         for x in st_:
-                            op = x['rv']['op']
-                            if op.get('k') in ('move', 'copy') and not op['place']['p'] and op['place']['l'] == cur and not x['place']['p']:
+                            rv_ = x['rv']
+                            op = rv_.get('op') if rv_.get('k') == 'use' else None
+                            if op is not None and op.get('k') in ('move', 'copy') and not op['place']['p'] and op['place']['l'] == cur and not x['place']['p']:
                                 cur = x['place']['l']
                                 moved = True
-                        if st_ and not moved:
+                            elif _mentions_local(x, cur):
+                                okblk = False
+                                break
+                        if not okblk or (st_ and not moved):
                             break
                         carried.extend(st_)
                         ti = blk['term']['target']
